@@ -1,0 +1,15 @@
+// apparmor.d - Full set of apparmor profiles
+// SPDX-License-Identifier: GPL-2.0-only
+
+//go:build verif
+
+// Package-level state of pkg/aa (property C02). Comment-only; see contracts_verif.go.
+package aa
+
+// parsePreamble stores inHeader before anything reads it; every reader of inHeader on the
+// per-file call graph of the build is reached through parsePreamble. (An error inside
+// parsePreamble leaves inHeader set, but the build aborts on that error.)
+//@ func (*AppArmorProfileFile).Parse
+//@   opt prop=C02
+//@   trusted
+//@   opt storefirst=pkg/aa.inHeader
